@@ -4,7 +4,7 @@ import math
 import numpy as np
 from hypothesis import strategies as st
 
-from harness import build, gen
+from harness import build, reps, gen
 from harness import refmodel as rm
 
 RULE = (
@@ -369,6 +369,11 @@ def check_constructor(case, ctx):
     exp = e_eq and e_in
     Settings.set_atol(float(atol))
     try:
+        # a rejected update of the global tolerance (anything but a builtin float is documented to raise) leaves the
+        # tolerance in force untouched: the verdicts below are still those at `atol`
+        bad = [np.float64(1e-3), 1, "1e-3", None, np.float32(1e-3), np.float64(1e-6)][reps.pick(repr(x.tolist()) + t, 6)]
+        ctx.raises((TypeError,), lambda: Settings.set_atol(bad), "set_atol:rejects_non_float")
+        ctx.equal(Settings.get_atol(), float(atol), "set_atol:rejected_value_is_not_stored")
         ok, err = True, None
         try:
             q = build.make(c_sys, t, x, m=m, mshape=obj.get("mshape"), is_physicality_required=True)
